@@ -143,6 +143,14 @@ def handle (op : String) (args : List String) (impl : String) : Option Verdict :
       return ⟨if latest.isNone then "err" else "panic", !(impl.startsWith "ok"), "evmretrytx:no-block-number"⟩
     let some r := receipt.toInt? | return bad
     return retryVerdict "evmretrytx" latest (fun l => retryReady l r conf) (fun l => decide (conf ≤ l - r)) "ok:2" impl "err" false
+  | "retryv2", [kind, latest, h, conf] => some <| Id.run do
+    let some latest := parseHead latest | return bad
+    let some conf := conf.toInt? | return bad
+    let some h := h.toInt? | return bad
+    -- the retried height is the event's height, unchanged, whatever its size
+    if kind == "sub" then
+      return retryVerdict "retryv2:sub" latest (fun l => subRetryMsgReady l h) (fun l => decide (h ≤ l)) s!"proc:{h}.{h}" impl
+    return retryVerdict s!"retryv2:{kind}" latest (fun l => retryReady l h conf) (fun l => decide (conf ≤ l - h)) s!"proc:{h}.{h}" impl
   | "evmretrymsg", [latest, h, conf] => some <| Id.run do
     let some latest := parseHead latest | return bad
     let some conf := conf.toInt? | return bad
